@@ -335,6 +335,11 @@ def do_actions(acts, where):
         elif kind == 'atexit_noise':
             import atexit
             atexit.register(lambda a=act: do_actions([['noise', a[1], a[2], a[3]]], where + ':atexit'))
+        elif kind == 'leave_process':
+            # a helper process that outlives the test (and this process): it inherits the real stderr (fd 2), not stdout
+            import subprocess
+            subprocess.Popen(['sleep', str(act[1])], stdin=subprocess.DEVNULL, stdout=subprocess.DEVNULL)
+            emit('leave_process', seconds=act[1], where=where)
         elif kind == 'set_executable':
             emit('set_executable', value=act[1], where=where)
             sys.executable = act[1]
